@@ -579,4 +579,84 @@ def multiStep (txs : List TxIn) (sts : List TxSt) (i : Nat) : List TxSt :=
 def multi (txs : List TxIn) (sched : List Nat) : List TxSt :=
   sched.foldl (multiStep txs) (txs.map (fun _ => TxSt.fresh))
 
+/-! ## DMARC policy discovery (`internal/dmarc/evaluate.go` `FetchRecord`, `dmarcRecords`;
+`internal/dmarc/verifier.go` `Verifier.Apply`) as far as it decides the `Dmarc` parameter of the
+pipeline model: which of the two `_dmarc` names are asked, what is made of the answers, which
+policy is applied.  The resolver's answers and the outcome of the alignment evaluation are the
+inputs (what alignment is, is property C07's business); `pct` is absent. -/
+
+inductive Pol | nothing | quarantine | reject
+deriving DecidableEq, Repr
+
+/-- One TXT record at a `_dmarc` name: something else (a wildcard record, an SPF record - it does
+not start with `v=DMARC1`), or a DMARC record with its `p` and optional `sp` tag. -/
+inductive Txt
+  | stray
+  | policy (p : Pol) (sp : Option Pol)
+deriving DecidableEq, Repr
+
+/-- What `LookupTXT` returns for a name: `IsNotFound`, a temporary error, or the records (possibly
+none). -/
+inductive Ans
+  | nx
+  | temp
+  | recs (l : List Txt)
+deriving DecidableEq, Repr
+
+/-- `dmarcRecords`: the records that are DMARC policies. -/
+def dmarcRecords : List Txt → List (Pol × Option Pol)
+  | [] => []
+  | .stray :: r => dmarcRecords r
+  | .policy p sp :: r => (p, sp) :: dmarcRecords r
+
+/-- One look-up as `FetchRecord` treats it: `none` = the error is handed back (not `IsNotFound`),
+otherwise the filtered records (`IsNotFound` = no records). -/
+def lookupPolicies : Ans → Option (List (Pol × Option Pol))
+  | .nx => some []
+  | .temp => none
+  | .recs l => some (dmarcRecords l)
+
+structure World where
+  /-- the RFC5322.From domain is its own organizational domain (both look-ups name the same record set) -/
+  fromIsOrg : Bool
+  atFrom : Ans
+  atOrg : Ans
+  /-- the alignment evaluation says pass -/
+  aligned : Bool
+
+/-- The answer at the name the FIRST look-up asks. -/
+def World.first (w : World) : Ans := if w.fromIsOrg then w.atOrg else w.atFrom
+
+/-- `FetchRecord`: `none` = look-up error; `some none` = no record; `some (some (p, sp, viaOrg))`:
+the one record and whether it was found at another name than the From domain.  The fall-back to
+the organizational domain is decided on the FILTERED list of the first answer. -/
+def fetchRecord (w : World) : Option (Option (Pol × Option Pol × Bool)) :=
+  match lookupPolicies w.first with
+  | none => none
+  | some (x :: rest) =>
+    -- records at the From domain: no second look-up
+    match rest with
+    | [] => some (some (x.1, x.2, false))
+    | _ => some none
+  | some [] =>
+    match lookupPolicies w.atOrg with
+    | none => none
+    | some [x] => some (some (x.1, x.2, !w.fromIsOrg))
+    | some _ => some none
+
+def Pol.toDmarc : Pol → Dmarc
+  | .nothing => .pass | .quarantine => .quar | .reject => .rej
+
+/-- `Verifier.Apply` on the fetched record (temporary look-up error: `PolicyReject`; no record or an
+aligned message: `PolicyNone`; else `p`, or `sp` when the record comes from another domain and has one). -/
+def discover (w : World) : Dmarc :=
+  match fetchRecord w with
+  | none => .rej
+  | some none => .pass
+  | some (some (p, sp, viaOrg)) =>
+    if w.aligned then .pass else
+    match viaOrg, sp with
+    | true, some s => s.toDmarc
+    | _, _ => p.toDmarc
+
 end MaddyVerif.CheckRunner
